@@ -369,8 +369,8 @@ Definition rt_alloc (c : cfg) : P nat :=
   ret b.
 
 Definition rt_free (c : cfg) (b : nat) : P unit :=
+  loc (fun g => (upd_rb g b (bs_next None), tt)) ;;;      (* block->next_ = nullptr, then the block is the allocator's *)
   emit [ev_free FRt b] ;;;
-  loc (fun g => (upd_rb g b (bs_next None), tt)) ;;;
   fl_put (c_spin c) FRt b.
 
 (** *** thread_hp_storage
